@@ -307,12 +307,78 @@ def templates(cls):
     return t
 
 
+# ---- third family: every Term subclass of the live package ---------------------------------------------------------------------
+
+
+def class_cells():
+    from pbt.props import c12
+
+    for tcls in c12.term_classes():
+        for cls_name in CTXS:
+            yield tcls, cls_name
+
+
+def check_class_cell(tcls, cls_name):
+    """an instance of the class built on fields of table t (recipes of C12) -> ('skip', why) | ('ok', nrefs) | ('viol', kind, detail).
+    Oracle: the result renders like the receiver with every qualifier t renamed, token by token; the independent walk finds no t; the receiver is unchanged."""
+    import pypika_tortoise as P
+    from pbt import lex
+    from pbt.props import c12
+
+    env = prog.Env(cls_name, c12.SRC)
+    try:
+        x = c12.instance(tcls, env)
+    except Exception as e:
+        return ("skip", "construct:" + type(e).__name__)
+    if x is None or not hasattr(x, "replace_table"):
+        return ("skip", "no-recipe" if x is None else "no-replace_table")
+    old, new = P.Table("t"), P.Table("n9")
+    ctx = prog.sql_context(cls_name).copy(with_namespace=True)
+    try:
+        before = x.get_sql(ctx)
+    except Exception as e:
+        return ("skip", "render:" + type(e).__name__)
+    try:
+        r = x.replace_table(old, new)
+    except Exception as e:
+        return ("viol", "raised:" + type(e).__name__, "%s.replace_table raised %r" % (tcls.__name__, e))
+    if x.get_sql(ctx) != before:
+        return ("viol", "receiver_changed", "%s: the receiver renders %r after the call, %r before" % (tcls.__name__, x.get_sql(ctx), before))
+    if r is None:
+        return ("viol", "returned_none", "%s.replace_table returned None" % tcls.__name__)
+    try:
+        after = r.get_sql(ctx)
+    except Exception as e:
+        return ("viol", "result_render_raises:" + type(e).__name__, "%r" % (e,))
+    tb = lex.lex(before, cls_name)
+    want = []
+    nrefs = 0
+    for i, t in enumerate(tb):
+        if t.kind == "qid" and t.value == "t" and ((i + 1 < len(tb) and tb[i + 1].text == ".") or (i > 0 and tb[i - 1].kind == "word" and tb[i - 1].value in ("FROM", "JOIN", "INTO", "UPDATE"))):
+            want.append(("qid", "n9"))
+            nrefs += 1
+        else:
+            want.append(t.key)
+    got = [t.key for t in lex.lex(after, cls_name)]
+    if got != want:
+        return ("viol", "differs", "%s under %s: %r became %r" % (tcls.__name__, cls_name, before, after))
+    left = find_tables(r, old)
+    if left:
+        return ("viol", "kept_old", "%s: a reference to the old table survives at %s; result renders %r" % (tcls.__name__, left[0][0], after))
+    return ("ok", nrefs)
+
+
 def stmt_sig(sig, detail, slot=None):
     return sig, detail
 
 
 def check_case(case):
     m = case["mode"]
+    if m == "class":
+        from pbt.props import c12
+
+        r = check_class_cell(c12.find_class(case["term"]), case["cls"])
+        return [(mksig("class", c12.find_class(case["term"]).__name__, r[1]), r[2])] if r[0] == "viol" else []
     if m == "term":
         return minimal_term_sig(case["term"], case["old"], case["new"])
     p = case["program"]
@@ -322,6 +388,11 @@ def check_case(case):
 
 def valid_case(case):
     try:
+        if case["mode"] == "class":
+            from pbt.props import c12
+
+            c12.find_class(case["term"])
+            return case["cls"] in CTXS
         if case["mode"] == "term":
             o = prog.build_program({"root": "term", "term": case["term"], "sources": sources(case["old"])})
             o.get_sql(prog.sql_context("generic"))
@@ -339,7 +410,7 @@ def count_old(node):
 
 
 def shards(tier, sd):
-    out = [("templates", tier, c) for c in CTXS]
+    out = [("templates", tier, c) for c in CTXS] + [("classes", tier, 0)]
     n = 3 if tier == "quick" else 16
     out += [("terms", tier, sd * 1000 + k) for k in range(n)]
     out += [("stmts", tier, sd * 1000 + 100 + k) for k in range(n)]
@@ -363,6 +434,25 @@ def run_shard(shard):
                 col.case(case, True, classes=("slot:" + name, "pair:%s/%s" % (old_kind, new_kind)))
                 for sig, detail in res:
                     col.violation(sig, case, detail)
+        col.exhaustive = True
+        return col
+    if kind == "classes":
+        from pbt.props import c12
+
+        uncovered = set()
+        for tcls, cls_name in class_cells():
+            case = {"mode": "class", "term": c12.class_key(tcls), "cls": cls_name}
+            r = check_class_cell(tcls, cls_name)
+            if r[0] == "skip":
+                col.count("class_skip:" + r[1])
+                col.evaluations += 1
+                if r[1] != "no-replace_table":
+                    uncovered.add(c12.class_key(tcls))
+                continue
+            col.case(case, r[0] == "viol" or r[1] >= 1, classes=("class_matrix",))
+            if r[0] == "viol":
+                col.violation(mksig("class", tcls.__name__, r[1]), case, r[2])
+        col.notes["class_matrix_uncovered"] = sorted(uncovered)
         col.exhaustive = True
         return col
     nex = 500 if tier == "quick" else 5000
